@@ -1,6 +1,12 @@
-(* Model of deephyper.ensemble.aggregator (pinned tree + the repairs F18, F24, F25 proposed in fixes/):
-   MeanAggregator, MixedNormalAggregator, MixedCategoricalAggregator, ModeAggregator.
+(* Model of deephyper.ensemble.aggregator: MeanAggregator, MixedNormalAggregator, MixedCategoricalAggregator, ModeAggregator.
    Executable definitions only; proofs are in Lemmas*.v.
+
+   Describes /repo (pinned tree, src/deephyper/ensemble/aggregator/_{mean,mixed_normal,mixed_categorical,mode}.py) WITH the
+   repairs proposed in fixes/: F18 (weighted epistemic variance), F24 (mode weights normalised), F25 (masked members do not
+   vote).  F26 (np.ma.square does not exist) and F27 (variance computed without cancellation) do not change the function
+   computed.  The behaviour of the pinned tree before F18/F24/F25 is kept next to it: mn_epi_today, counts_today / mode_today
+   (pinned), counts_mid / mode_mid (F24 applied, F25 not) - used by the _refuted theorems and by the harness to recognise the
+   known findings.
 
    Element-wise over Q: ONE output cell (Mean, MixedNormal) or ONE output row of K classes (MixedCategorical,
    Mode) at a time; array shapes are flattened by the harness.  A member is (weight, payload) where the payload
